@@ -263,6 +263,63 @@ def run_c09(ctx, spec):
                     out["violations"].append(viol(pid, "from_numpy / flatten / get_readable round trip does not give "
                                                        "back the same content", scenario=sd,
                                                   state=state_wire(t, lay)))
+            # (e) ONE Observation object through a random history of its public writers and readers: after
+            # every call the 1-D form is the row-major flattening of the 2-D form, the four flags lead the
+            # auxiliary row in the documented order, and the host rows are those last written
+            AR = __import__("nasim.envs.action", fromlist=["ActionResult"]).ActionResult
+            results = ((AR(False, connection_error=True), [0.0, 1.0, 0.0, 0.0]),
+                       (AR(False, permission_error=True), [0.0, 0.0, 1.0, 0.0]),
+                       (AR(False, undefined_error=True), [0.0, 0.0, 0.0, 1.0]), (AR(True), [1.0, 0.0, 0.0, 0.0]))
+            t0 = states[0].tensor
+            o = Observation(t0.shape)
+            want_rows, want_flags, hist = np.zeros(t0.shape), None, []
+            for _ in range(14):
+                w = rng.randrange(7)
+                if w == 0:
+                    s_ = rng.choice(states)
+                    o.from_state(s_)
+                    want_rows = s_.tensor.copy()
+                    hist.append("from_state")
+                elif w == 1:
+                    r_, want_flags = rng.choice(results)
+                    o.from_action_result(r_)
+                    hist.append(f"from_action_result{want_flags}")
+                elif w == 2:
+                    s_ = rng.choice(states)
+                    r_, want_flags = rng.choice(results)
+                    o.from_state_and_action(s_, r_)
+                    want_rows = s_.tensor.copy()
+                    hist.append(f"from_state_and_action{want_flags}")
+                elif w == 3:
+                    s_ = rng.choice(states)
+                    hi = rng.randrange(t0.shape[0])
+                    o.update_from_host(hi, s_.tensor[hi])
+                    want_rows[hi] = s_.tensor[hi]
+                    hist.append(f"update_from_host({hi})")
+                elif w == 4:
+                    o.numpy_flat()
+                    hist.append("numpy_flat")
+                elif w == 5:
+                    o.shape_flat()
+                    hist.append("shape_flat")
+                else:
+                    o.numpy()
+                    hist.append("numpy")
+                f1, m2 = np.array(o.numpy_flat(), dtype=float), np.array(o.numpy(), dtype=float)
+                ok = (np.array_equal(f1, m2.flatten(order="C")) and m2.shape == (t0.shape[0] + 1, t0.shape[1])
+                      and tuple(o.shape_flat()) == f1.shape and tuple(o.shape()) == m2.shape
+                      and np.array_equal(m2[:-1], want_rows)
+                      and (want_flags is None or ([float(x) for x in m2[-1][:4]] == want_flags
+                                                  and [float(o.success), float(o.connection_error),
+                                                       float(o.permission_error), float(o.undefined_error)] == want_flags)))
+                evals += 1
+                if not ok:
+                    out["violations"].append(viol(pid, "after a history of public calls on one Observation object its 1-D "
+                                                       "form is not the row-major flattening of its 2-D form, or the "
+                                                       "auxiliary flags / host rows are not those last written",
+                                                  scenario=sd, history=hist, flat=[float(x) for x in f1][-t0.shape[1]:],
+                                                  aux_row=[float(x) for x in m2[-1]], expected_flags=want_flags))
+                    break
         except Inexact:
             raise
         except Exception:   # noqa: BLE001
@@ -528,24 +585,78 @@ def semantic_case(rng, sd, scenario, nops):
     if not same:
         return sdw, hist
     worked, retry = [], []
+    ban = set()          # subnets the current episode stays out of (another route after a reset)
+
+    def changing(limit=40):
+        """actions of `same` that change the implementation's current state when their draw succeeds"""
+        env, st0 = runner.env, runner.env.current_state
+        cands = [i for i in same if flat[i][1][0] not in ban and flat[i][0] != 6]
+        rng.shuffle(cands)
+        res = []
+        for i in cands[:limit]:
+            runner.shim.k, runner.shim.calls = 0, 0
+            runner.shim.install()
+            try:
+                ns = env.generative_step(st0, runner.arg([0, i]))[0]
+            except Exception:   # noqa: BLE001
+                continue
+            finally:
+                runner.shim.remove()
+            if not np.array_equal(ns.tensor, st0.tensor):
+                res.append(i)
+        return res
+    since_reset = 0
     for _ in range(nops):
-        if rng.random() < 0.06:
+        since_reset += 1
+        if rng.random() < (0.06 if since_reset < 8 else 0.15):
             hist.append(("reset",))
+            st = np.asarray(runner.env.current_state.tensor)
+            p_ = runner.lay[0] + runner.lay[1]
+            comp_subnets = sorted({runner.addrs[i][0] for i, row in enumerate(st) if row[p_]})
             runner.run_op([0])
-            retry = list(worked[-6:])     # after a reset: what worked before, latest first
+            since_reset = 0
+            # after a reset: what worked before -- replayed in order (deep states again), latest first
+            # (targets now out of reach), or a random part of it in order while the episode stays out of one
+            # subnet it went through before (another way in, then the same deep targets: pivots,
+            # reachability and firewalls differ from the first episode)
+            x_ = rng.random()
+            ban = set()
+            if x_ < 0.3:
+                retry = list(reversed(worked[-8:]))
+            elif x_ < 0.45:
+                retry = list(worked[-6:])
+            else:
+                deep = flat[worked[-1]][1][0] if worked else None
+                if [c_ for c_ in comp_subnets if c_ != deep]:
+                    ban = {rng.choice([c_ for c_ in comp_subnets if c_ != deep])}
+                retry = list(reversed([w_ for w_ in worked[-10:] if rng.random() < 0.7 and flat[w_][1][0] not in ban]))
             continue
         ai = None
-        if retry and rng.random() < 0.85:
-            ai = retry.pop()
-        elif worked and rng.random() < 0.15:
+        x_ = rng.random()
+        if retry and x_ < 0.5:
+            st = np.asarray(runner.env.current_state.tensor)
+            p_ = runner.lay[0] + runner.lay[1]
+            hi_ = runner.addrs.index(tuple(flat[retry[-1]][1]))
+            if (st[hi_][p_ + 1] and st[hi_][p_ + 2]) or rng.random() < 0.15:
+                ai = retry.pop()      # mostly kept back until its target is reachable and discovered again
+        elif x_ < 0.85:
+            ch = changing()
+            if ch:
+                ai = rng.choice(ch)
+            elif retry:
+                ai = retry.pop()      # nothing else moves: now the held-back ones
+        elif worked and x_ < 0.9:
             ai = rng.choice(worked)
+            if flat[ai][1][0] in ban:
+                ai = None
         for _try in range(6 if ai is None else 0):
             cand = gen.pick_action(runner, flat, {k: v for k, v in by_target.items()}) if by_target else None
-            if cand in same:
+            if cand in same and flat[cand][1][0] not in ban:
                 ai = cand
                 break
         if ai is None:
-            ai = rng.choice(same)
+            ok_ = [i for i in same if flat[i][1][0] not in ban] or same
+            ai = rng.choice(ok_)
         k = gen.pick_draw(flat[ai][3])
         hist.append(("step", ai, dyn.param_vector(rng, sd, flat[ai]), k))
         o_ = runner.run_op([1, [0, ai], k])
